@@ -31,7 +31,8 @@ LEVEL_NOTE = ("Trusted: Lean kernel (standard axioms); np.linalg.svd specificati
 LEAN_TARGETS = ["QclibModel.Props.C07"]
 DRIVER = "Drivers/C07.lean"
 THEOREMS = ["Qclib.C07_rank_rule", "Qclib.C07_fidelity", "Qclib.C07_exact_when_full", "Qclib.C07_assembly",
-            "Qclib.C07_placement", "Qclib.C07_optimal_rank1", "Qclib.C07_optimal", "Qclib.C07_optimal_state"]
+            "Qclib.C07_placement", "Qclib.C07_optimal_rank1", "Qclib.C07_optimal", "Qclib.C07_optimal_state",
+            "Qclib.C07_rank_src"]
 TRUSTED = [
     "np.linalg.svd specification (M = U diag(s) Vh, orthonormal factors, s sorted non-increasing >= 0) - hypothesis of C07_fidelity / C07_exact_when_full",
     "the encoders chosen by _encode (qclib.isometry.decompose, qclib.unitary.unitary, nested LowRankInitialize) implement the given matrix on |0..0> resp. as a unitary (properties C01-C03), and qiskit's compose / reverse_bits / Statevector little-endian conventions - validated end-to-end by the Statevector oracle each run",
@@ -724,8 +725,17 @@ def probe_randomized_nested(ctx):
                          "therefore use lr = 2 only")
 
 
+def generate(ctx):
+    """Rank rule re-translated from the current source (tools/schmidt_src.py, shared with C09; Gen/SchmidtRank.lean); a refusal
+    raises (broken obligation)."""
+    import schmidt_src
+    return schmidt_src.generate(ctx, "QclibModel.Props.C07", ["Qclib.C07_rank_src"])
+
+
 def run(ctx):
     from props import c09
+    import schmidt_src
+    schmidt_src.tie(ctx)
     run_tie(ctx)
     run_tie_branches(ctx)
     run_tie_boundaries(ctx)
